@@ -68,11 +68,12 @@ CLAIMS = {
    note=TB + "the specification verifySpec (Lemmas/VerifySpec) reuses the model's sigDecode / SampleInBall / ExpandA / w1Encode transcriptions (they are tied to the crate by correspondence; canonicity of the decoder is C08); checks/ref/mldsa.py (Algorithms 3, 5, 8) is the independent execution oracle.",
    tech="Lean 4 proof that verify_internal equals Algorithm 8 with exact arithmetic mod q (NTT pipeline semantics) + rejecting-condition theorems + boundary cases judged by a FIPS 204 reference"),
  'C05': dict(cat='proof', ref='DESIGN 5 C05',
-   text="Partial proof + exhaustive flip runs. Proved in Lean: UseHint(1, r) != UseHint(0, r) for every r and both gamma2 (a decoded hint-bit change always changes w1'), UseHint's range, and a change of message / context / "
-        "mode changes the hashed input tr||M' unless a pre-hash collision is exhibited. Not provable without assumptions on SHAKE256 and A: flips inside c~ and z. Those are decided by running every single-bit "
-        "position of sig, pk, message and context of sampled valid tuples (honest and forged with a dense hint section) on the crate: exploration, exhaustive per tuple.",
+   text="Lean theorems (everything that is not a statement about SHAKE256 itself) + exhaustive flip runs. The property as stated is false of any hash function with collisions, so the theorems say what a second accepted tuple would be, for every oracle, key byte string and input, on the model of verify / hash_verify / verify_internal (through C02, verify_internal = Algorithm 8): "
+        "(1) hint_section_change_needs_collision - two different signature strings with the same c~ and z that both decode (so they differ in hint counts, indices or padding) and both verify under the same key and message exhibit two different inputs on which H agrees (from C08's sig_encode(sig_decode) = id, UseHint(1, r) != UseHint(0, r) for every r, and injectivity of w1Encode); "
+        "(2) changed_interpretation_needs_collision - one signature accepted for two different (context, message, mode) interpretations with contexts <= 255 bytes is a pre-hash collision or a collision of H; (3) changed_public_key_needs_collision - one (message, context, signature) accepted under two different public-key strings is a collision of H (on the keys, on tr||M', or on mu||w1). "
+        "Not a collision statement, hence not provable without assumptions on SHAKE256 and A: flips inside c~ and z (acceptance there is the fixed-point equation c~ = H(mu || w1(c~, z))). Every single-bit position of sig, pk, message and context of sampled valid tuples (honest and forged with a dense hint section) is run on the crate: exploration, exhaustive per tuple.",
    note=TB + "an exception would be a SHAKE256 collision; tuple count per run is stated in the evidence.",
-   tech="Lean 4 proof of hint-bit sensitivity and encoding injectivity + exhaustive single-bit mutation of sampled valid tuples on the crate"),
+   tech="Lean 4 proofs that a second accepted tuple differing in the hint section, the interpretation or the public key is an explicit hash collision + exhaustive single-bit mutation of sampled valid tuples on the crate"),
  'C08': dict(cat='proof', ref='DESIGN 5 C08',
    text="Lean theorems for every byte string, at full parameters, both build modes: (1) for each parameter set, every signature byte string that sig_decode accepts is reproduced byte for byte by sig_encode of the decoded (c~, z, h), hence two "
         "different byte strings are never read as the same signature; (2) bit_pack(bit_unpack(v)) = v for every accepted v and bit_unpack(bit_pack(w)) = w for every in-range w, for every (a, b) with a + b < 2^bitlen - a bijection "
